@@ -80,6 +80,12 @@ def gen_cases(rng, tier):
         w = rng.choice([16, 32, 48, 64])
         ops = rand_path_ops(rng, w / 2, w / 2, w / 2 - 2, curves=False, grid=rng.choice([64.0, 2.0, 1.0, 4096.0]))
         cases.append(("fill_spans", [i % 2, w, w] + ops))
+    # paths with quadratic and cubic segments inside the clip, bit-exact spans: chopping at the y extrema (binary32), the
+    # forward-differenced curve edges, the walker replacing the line of a curve edge in place
+    for i in range(1500 if tier == "quick" else 20000):
+        w = rng.choice([16, 32, 48, 64, 200])
+        ops = rand_path_ops(rng, w / 2, w / 2, w / 2 - 2, curves=True, grid=rng.choice([64.0, 2.0, 1.0, 4096.0]))
+        cases.append(("fill_spans", [i % 2, w, w] + ops))
     # axis-aligned rectangles / vertical edges (combine_vertical)
     for i in range(200):
         w = 32
@@ -198,9 +204,54 @@ def known_class(suite, args, out, what):
     return None
 
 
+_OP_AR = {0: 2, 1: 2, 2: 4, 3: 6, 4: 0, 5: 4, 6: 4, 7: 3}
+
+
+def has_curve_ops(ops):
+    i = 0
+    while i < len(ops):
+        k = ops[i]
+        if k in (2, 3, 6, 7):
+            return True
+        if k not in _OP_AR:
+            return True
+        i += 1 + _OP_AR[k]
+    return False
+
+
+def merged_spans(out):
+    """the spans of a blit list as a set of pixels per row: sorted, touching spans merged"""
+    t = out.split()
+    if len(t) % 3 or not all(x.lstrip("-").isdigit() for x in t):
+        return None
+    rows = {}
+    for i in range(0, len(t), 3):
+        x, y, w = int(t[i]), int(t[i + 1]), int(t[i + 2])
+        if w <= 0 or x < 0:
+            return None
+        rows.setdefault(y, []).append((x, x + w))
+    res = []
+    for y in sorted(rows):
+        cur = None
+        for a, b in sorted(rows[y]):
+            if cur and a <= cur[1]:
+                cur[1] = max(cur[1], b)
+            else:
+                cur = [a, b]
+                res.append((y, cur))
+    return [(y, c[0], c[1]) for y, c in res]
+
+
 def relation(suite, args, mo, io):
     if mo == io or mo.strip() == "-9":
         return True
+    if suite == "fill_spans" and has_curve_ops(args[3:]):
+        # the model walks the flattened line lists of the curve edges, the implementation replaces the line of a curve edge
+        # in place: edges with equal abscissae may be met in another order, which splits or joins touching spans but
+        # covers the same pixels
+        a, b = merged_spans(mo), merged_spans(io)
+        if a is not None and a == b:
+            return True
     if mo.strip() == "-1" and (io.startswith("PANIC") or suite in ("line_edge", "quad_edge", "cubic_edge")):
         # -1 = a debug assertion of the fixed-point conversion fails: a panic in checked builds, an unspecified value in
         # release builds (the raw LineEdge hook is never reached with such coordinates through the public API: the edge
